@@ -41,6 +41,7 @@ func defaultSecrets() rSecrets {
 
 // rEnv is a configuration plus the credential model derived from it.
 type rEnv struct {
+	Name   string // "" main configuration, "odd" the C14 configuration
 	Sec    rSecrets
 	Cfg    config.ServerConfig
 	KC     *keychainRec
@@ -281,6 +282,9 @@ type rConn struct {
 }
 
 func (rw *rworld) openR(e *rEnv, scope string) (*rConn, error) {
+	if scope == "s3" {
+		return rw.openAddr(e, scope)
+	}
 	addr := srvx.Addr4(10, 7, 7, 7, 7000)
 	key := []byte(e.Sec.Key1)
 	if scope == "s2" {
